@@ -162,7 +162,8 @@ Fresh0 == PI!InitP(RootKind, buf, ParserMaxD).P
 Again(op, PP, ret) ==
   /\ P' = PP /\ c' = C!Fresh /\ path' = InitPath(hex) /\ hist' = <<>>
   /\ bad' = IF ret /\ PP = Fresh0 THEN bad ELSE "not fresh after " \o path \o op
-  /\ (EmitOn => PrintT(Line(path, E!Full(op, IF op = "I" THEN RootKind \o hex ELSE "", "1", "0", "0", "x", "x", "P", "0"))))
+  /\ (EmitOn => PrintT(Line(path, E!Full(op, IF op = "I" THEN RootKind \o hex ELSE "", "1", "0", "0", "x", "x",
+                                         IF "xprobe" \in Ops THEN "X" ELSE "P", "0"))))
   /\ UNCHANGED <<phase, buf, bstk, nodes, tree, hex>>
 Reuse ==
   /\ phase = "nav" /\ bad = "" /\ "reuse" \in Ops /\ path # InitPath(hex)
@@ -223,6 +224,7 @@ OpsNav   == {"enter", "next", "leave", "raw"}
 OpsAll   == {"enter", "next", "leave", "raw", "field", "nextens", "fieldens"}
 OpsLook  == {"enter", "next", "leave", "field", "fieldens"}
 OpsTrans == {"transcribe"}
+OpsReuseX == {"enter", "next", "leave", "field", "reuse", "xprobe"}
 OpsReuse == {"enter", "next", "leave", "raw", "field", "reuse"}
 RootsOA  == {"O", "A"}
 RootsO   == {"O"}
